@@ -28,6 +28,36 @@ def polygon_case(draw, nmin=3, nmax=8):
 
 
 @st.composite
+def needle_polygon_case(draw):
+    """long and thin: a base spanning most of the coordinate range and a quarter-lattice height (triangles, thin
+    quadrilaterals), and slivers of tetrahedra built on them; every point is a lattice point, no two directions are
+    closer than a few degrees... except by construction: the thin angle is about 0.25 / 20 rad, still more than ten
+    times the admission margin"""
+    d = draw(GB.direction(2))
+    L = draw(st.sampled_from((4, 5, 6, 7)))
+    while max(abs(c) for c in X.mul(L, d)) > 8:
+        L -= 1
+    assume(L >= 2)
+    a = X.mul(F(-L), d)
+    b = X.mul(F(L), d)
+    u, v = X.perp2(d)
+    w = draw(st.sampled_from((u, v, X.add(u, v))))
+    w = X.mul(F(1, 4) / max(1, max(abs(c) for c in w)), w)  # quarter-lattice, short
+    t = draw(st.sampled_from((F(0), F(1, 2), F(-1, 2), F(1, 4))))
+    c = X.add(X.mul(t * L, d), w)
+    pts = [a, b, c]
+    if draw(st.booleans()):
+        pts.append(X.sub(X.mul(draw(st.sampled_from((F(0), F(1, 4), F(-1, 2)))) * L, d), w))  # thin kite
+    g = X.make_G(pts)
+    assume(len(g[1]) == len(pts))
+    sh = draw(GB.lattice_point(2))
+    sh = tuple(F(int(x)) for x in sh)
+    q = [X.add(p_, sh) for p_ in g[1]]
+    assume(max(abs(c_) for p_ in q for c_ in p_) <= 10)
+    return ("G", q, draw(vertex_order(len(q))))
+
+
+@st.composite
 def polyhedron_case(draw, family=None):
     K = draw(GB.polyhedron(family))
     nf = len(K[2])
